@@ -27,11 +27,11 @@ ASSUMPTIONS = ["gyr_noise is documented as 'scaled to the units of the gyroscope
                "the module-level GENERATOR of ahrs.utils.sensors is replaced by a seeded generator before every case (determinism of the check, not of the library)"]
 
 
-def smooth_quats(rng, n, dt):
+def smooth_quats(rng, n, dt, slow=False):
     q = [gens.unit(rng)]
-    w = gens.axis(rng) * gens.logu(rng, 0.05, 1.5)
+    w = gens.axis(rng) * (gens.logu(rng, 0.05, 1.5) if not slow else gens.logu(rng, 1e-7, 1e-5))      # slow: a platform drifting by micro-radians per second
     for _ in range(n - 1):
-        w = w + rng.standard_normal(3) * 0.05
+        w = w + rng.standard_normal(3) * (0.05 if not slow else 0.02 * np.linalg.norm(w))
         w *= min(1.0, 2.0 / np.linalg.norm(w))
         q.append(rq.qnormalize(rq.qmul(q[-1], rq.qexp_pure(w * dt / 2))))
     return np.array(q)
@@ -75,7 +75,7 @@ def generate(rng, tier, shard, nshards):
                 kw["span"] = (float(-gens.logu(rng, 0.2, 8.0)), float(gens.logu(rng, 0.2, 8.0)))       # narrower and wider than the default half turn each way
             if combo in (0, 1):
                 kw["yaw"] = float(rng.uniform(-170, 170)) if (i // 16) % 3 else float(rng.choice([0.0, 90.0, -180.0, 180.0]))
-        Q = smooth_quats(rng, N, 1.0 / freq) if given else None
+        Q = smooth_quats(rng, N, 1.0 / freq, slow=(i % 8 == 7)) if given else None
         if given and i % 8 in (3, 5):
             # a trajectory read from a log: quaternions rounded to a few decimals (nearly, not exactly, unit) or stored with a common scale
             Q = np.round(Q, int(rng.integers(4, 9))) if i % 8 == 3 else Q * gens.logu(rng, 0.5, 2.0)
